@@ -316,6 +316,29 @@ static std::string c12_run_request(std::vector<std::string> const &w,std::string
 	return out.str();
 }
 
+// lim <content_length_limit KiB|-> <multipart_form_data_limit KiB|->: a service configured with these settings; the byte
+// limits a new request starts with (content_limits(cached_settings)); "-" = key absent
+static std::string c12_run_limits(std::vector<std::string> const &w)
+{
+	cppcms::json::value cfg;
+	cfg["service"]["api"]="scgi";
+	cfg["service"]["socket"]="stdin";
+	cfg["service"]["worker_threads"]=1;
+	cfg["logging"]["level"]="error";
+	if(w[1]!="-") cfg["security"]["content_length_limit"]=atoi(w[1].c_str());
+	if(w[2]!="-") cfg["security"]["multipart_form_data_limit"]=atoi(w[2].c_str());
+	cppcms::service s(cfg);
+	std::map<std::string,std::string> env;
+	std::vector<std::string> chunks;
+	std::ostringstream out;
+	{
+		booster::shared_ptr<c12::conn> c(new c12::conn(s,env,chunks));
+		booster::shared_ptr<cppcms::http::context> ctx(new cppcms::http::context(c));
+		out<<"limits "<<ctx->request().limits().content_length_limit()<<" "<<ctx->request().limits().multipart_form_data_limit();
+	}
+	return out.str();
+}
+
 static std::string c12_run_form(std::vector<std::string> const &w)
 {
 	return "unimplemented";
